@@ -427,8 +427,19 @@ def stackUtvs (vars : List (Str × MatVal α)) : List Str → Except String (Lis
       | .error e => .error e
     | _ => .error "KeyError"
 
-/-- `load_rdms_comps_mat` -/
-def compsMat (info : MInfo) (vars : List (Str × MatVal α)) : Except String (Comps α) :=
+/-- does the variable hold a stimulus list that passes the test `same` against `stim`?
+    (`numpy.array_equal(data[v], stimuli)` for `same = (· == ·)`) -/
+def strsSame (same : List Str → List Str → Bool) (stim : List Str) : Option (MatVal α) → Bool
+  | some (.strs l) => same stim l
+  | _ => false
+
+/-- `load_rdms_comps_mat`, the test that lets a participant of a multi-participant file pass as a
+    parameter.  Every participant has its own `stimuli_<p>` and `rdmutv_<p>` variable, the vector
+    laid out in **that participant's** stimulus order; the labels are the first participant's, so
+    only participants passing `same` against the first list are kept (the others are skipped with a
+    warning, as the json loader does with tasks). -/
+def compsMatBy (same : List Str → List Str → Bool) (info : MInfo)
+    (vars : List (Str × MatVal α)) : Except String (Comps α) :=
   if info.participantScopeSingle then
     match lookupVar vars sStimuli, lookupVar vars sRdmutv with
     | some (.strs stim), some (.nums rows) =>
@@ -444,13 +455,18 @@ def compsMat (info : MInfo) (vars : List (Str × MatVal α)) : Except String (Co
     | v0 :: _ =>
       match lookupVar vars v0, info.taskName with
       | some (.strs stim), some tn =>
-        let pnames := stimVars.map pnameOfVar
+        let matching := stimVars.filter (fun v => strsSame same stim (lookupVar vars v))
+        let pnames := matching.map pnameOfVar
         match stackUtvs vars pnames with
         | .ok utvs =>
           .ok { utvs := utvs, stimuli := stim, pnames := pnames,
                 tnames := some (pnames.map (fun _ => tn)), tidx := none }
         | .error e => .error e
       | _, _ => .error "KeyError"
+
+/-- `load_rdms_comps_mat` (participants kept: those whose stimulus list equals the first one's) -/
+def compsMat (info : MInfo) (vars : List (Str × MatVal α)) : Except String (Comps α) :=
+  compsMatBy (fun a b => a == b) info vars
 
 /-- one entry of `data['tasks']` of a Meadows json tree -/
 structure JTask (α : Type) where
